@@ -179,3 +179,31 @@ def counter_interval(tr, e, fq, field):
                 lo = iv[0] if lo is None else min(lo, iv[0])
                 hi = iv[1] if hi is None else max(hi, iv[1])
     return (lo, hi) if found else None
+
+
+def allocator_reads(a):
+    """identifier allocator (factory method whose result is used as msgId) -> set of registries read inside its frame."""
+    out = {}
+    for cls in a.protos[1:]:
+        cat = catalogue(a, cls)
+        for tr in contexts(cat):
+            for e in tr.events:
+                if e.kind != "FACRET":
+                    continue
+                fq = e.a["func"]
+                regs = out.setdefault(fq, set())
+                i = tr.events.index(e)
+                depth = len(e.stack)
+                for x in reversed(tr.events[:i]):
+                    if x.kind == "CALL" and x.a["func"] == fq and len(x.stack) == depth:
+                        break
+                    if len(x.stack) > depth:
+                        if x.a.get("reg") and x.kind in ("REGADDR", "REGTOPCALL", "LOOKUP"):
+                            regs.add(x.a["reg"])
+                        if x.kind == "LOOP":
+                            for sub in subterms(x.a.get("iter") or ()):
+                                if isinstance(sub, tuple) and sub[:1] == ("regtop",):
+                                    regs.add(sub[1])
+        if out:
+            break
+    return out
